@@ -10,6 +10,9 @@ infixr:60 " ;; " => Prog.seq
 
 abbrev Obsv := Nat → Prog
 
+/-- `Observable::inner_subscribe`: the source closure runs only for an observer that is still subscribed -/
+def Obsv.sub (src : Obsv) (o : Nat) : Prog := .obsIsSub o fun b => if b then src o else .done
+
 /-! ### association lists stored in cells (insertion ordered, like the facade's HashMap) -/
 
 def amapInsert (m : Data) (key : Int) (v : Data) : Data :=
@@ -116,10 +119,10 @@ def Sctl.isSub (sc : Sctl) (k : Bool → Prog) : Prog := .obsIsSub sc.sub k
     encoded as `pair (int observer) (int armed-cell)`; `lnil` is `None`. -/
 
 def subscribeWith (src : Obsv) (n : Data → Prog) (e : Nat → Prog) (c : Prog) (k : Data → Prog) : Prog :=
-  .obsNew n e c fun o => src o ;; .cellNew (.bool true) fun a => k (.pair (.int o) (.int a))
+  .obsNew n e c fun o => src.sub o ;; .cellNew (.bool true) fun a => k (.pair (.int o) (.int a))
 
 def innerSubscribeH (src : Obsv) (o : Nat) (k : Data → Prog) : Prog :=
-  src o ;; .cellNew (.bool true) fun a => k (.pair (.int o) (.int a))
+  src.sub o ;; .cellNew (.bool true) fun a => k (.pair (.int o) (.int a))
 
 def subUnsub (h : Data) : Prog :=
   match h with
@@ -152,6 +155,7 @@ def Subj.complete (sj : Subj) : Prog :=
     forEach (amapVals m) fun o => .obsComplete o.toInt.toNat .done
 
 def Subj.observable (sj : Subj) : Obsv := fun s =>
+  .obsIsSub s fun alive => if !alive then .done else
   .cellRead sj.serial false fun sv =>
     let serial := sv.toInt + 1
     .cellWrite sj.serial false (.int serial) <|
